@@ -49,6 +49,10 @@ class Obj:
         return self is other
 
 
+class AbsRaise(Exception):
+    """the evaluated code raises: this path produces no result"""
+
+
 class _Return(Exception):
     def __init__(self, v):
         self.v = v
@@ -70,7 +74,12 @@ class Closure:
 
 class AbsExec:
     def __init__(self, models: dict[str, Callable[..., Any]] | None = None, methods: dict[tuple[str, str], Callable[..., Any]] | None = None,
-                 attrs: dict[tuple[str, str], Callable[[Obj], Any]] | None = None, where: str = "", max_steps: int = 20000):
+                 attrs: dict[tuple[str, str], Callable[[Obj], Any]] | None = None, where: str = "", max_steps: int = 20000,
+                 repo=None, classes: dict[str, Any] | None = None, num_hook: Callable[[ast.operator, Any, Any], Any] | None = None):
+        self.repo = repo
+        self.classes = classes or {}  # class name -> sa.model.Cls: instances are Obj(cls name) whose methods are evaluated from the repo source
+        self.num_hook = num_hook
+        self.yields: list[list] = []
         self.models = models or {}
         self.methods = methods or {}
         self.attrs = attrs or {}
@@ -149,6 +158,8 @@ class AbsExec:
                 raise Undecided(f"{self.where}:{st.lineno}: assertion is false in the abstract domain: {ast.unparse(st.test)[:80]}")
         elif isinstance(st, ast.Pass):
             return
+        elif isinstance(st, ast.Raise):
+            raise AbsRaise(ast.unparse(st)[:100])
         elif isinstance(st, ast.Break):
             raise _Break()
         elif isinstance(st, ast.Continue):
@@ -207,9 +218,19 @@ class AbsExec:
             return list(v)
         if isinstance(v, _Enum):
             return list(v.items)
+        if isinstance(v, Obj):
+            m = self._repo_method(v.cls, "__iter__")
+            if m is not None:
+                return list(self.iterate(self.apply(("repo", v, m), [], {}, node), node))
+            if (v.cls, "__iter__") in self.methods:
+                return list(self.methods[(v.cls, "__iter__")](v))
         raise Undecided(f"{self.where}:{getattr(node, 'lineno', 0)}: iteration over an opaque value: {ast.unparse(node)[:80]}")
 
     def binop(self, op: ast.operator, a: Any, b: Any, node: ast.AST) -> Any:
+        if self.num_hook is not None:
+            r = self.num_hook(op, a, b)
+            if r is not NotImplemented:
+                return r
         if isinstance(a, Tok) or isinstance(b, Tok) or isinstance(a, Obj) or isinstance(b, Obj):
             sym = {ast.Add: "+", ast.Sub: "-", ast.Mult: "*", ast.FloorDiv: "//", ast.Mod: "%", ast.Div: "/"}.get(type(op), "?")
             return Tok(f"({_show(a)} {sym} {_show(b)})")
@@ -320,6 +341,11 @@ class AbsExec:
             return self.call(e, env)
         if isinstance(e, ast.Lambda):
             return Closure(e, env)
+        if isinstance(e, ast.Yield):
+            if not self.yields:
+                raise Undecided(f"{self.where}:{e.lineno}: yield outside a generator frame")
+            self.yields[-1].append(self.eval(e.value, env) if e.value is not None else None)
+            return None
         if isinstance(e, ast.JoinedStr):
             return Tok(ast.unparse(e))
         if isinstance(e, ast.Starred):
@@ -385,6 +411,11 @@ class AbsExec:
                 return base.f[attr]
             if (base.cls, attr) in self.methods:
                 return ("bound", base, attr)
+            m = self._repo_method(base.cls, attr)
+            if m is not None:
+                if any("property" in d for d in m.decorators()):
+                    return self.apply(("repo", base, m), [], {}, node)
+                return ("repo", base, m)
             raise Undecided(f"{self.where}:{getattr(node, 'lineno', 0)}: attribute .{attr} of modelled {base.cls} is not modelled")
         if isinstance(base, Tok):
             return Tok(f"{base.text}.{attr}")
@@ -395,6 +426,15 @@ class AbsExec:
         if isinstance(base, tuple) and len(base) == 3 and base[0] == "record":
             return Tok(f"{base[1]}.{attr}")
         raise Undecided(f"{self.where}:{getattr(node, 'lineno', 0)}: attribute .{attr} of {type(base).__name__}")
+
+    def _repo_method(self, cls_name: str, attr: str):
+        c = self.classes.get(cls_name)
+        if c is None or self.repo is None:
+            return None
+        return self.repo.find_method(c, attr)
+
+    def new(self, cls_name: str, **fields) -> Obj:
+        return Obj(cls_name, dict(fields))
 
     def call(self, e: ast.Call, env: dict) -> Any:
         args: list = []
@@ -446,8 +486,38 @@ class AbsExec:
                     raise Undecided(f"{self.where}:{e.lineno}: builtin {b} failed in the abstract domain") from None
             if b == "cast" and len(args) == 2:
                 return args[1]
+            if b in ("any", "all") and len(args) == 1:
+                vals = [self.truth(x, e) for x in self.iterate(args[0], e)]
+                return any(vals) if b == "any" else all(vals)
+            if b == "type" and len(args) == 1 and isinstance(args[0], Obj) and args[0].cls in self.classes:
+                return ("ctor", args[0].cls)
+            if b == "next" and args and isinstance(args[0], list):
+                if args[0]:
+                    return args[0].pop(0)
+                if len(args) > 1:
+                    return args[1]
+                raise AbsRaise("StopIteration")
+            if b == "iter" and len(args) == 1:
+                return list(self.iterate(args[0], e))
             if b in ("isa",):
                 return _UNKNOWN
+        # instances of repo classes evaluated from source
+        if last in self.classes and last not in self.models:
+            c = self.classes[last]
+            init = self.repo.find_method(c, "__init__") if self.repo is not None else None
+            obj = Obj(last, {})
+            if init is not None:
+                self.apply(("repo", obj, init), args, kwargs, e)
+            else:
+                fields = [n for k in reversed(self.repo.mro(c)) for n in k.annotations] if self.repo is not None else []
+                for n, v in zip(fields, args):
+                    obj.f[n] = v
+                obj.f.update(kwargs)
+                for k in self.repo.mro(c) if self.repo is not None else []:
+                    for n, dv in k.consts.items():
+                        if n in fields and n not in obj.f:
+                            obj.f[n] = self.eval(dv, {})
+            return obj
         # models by constructor / function name
         if last in self.models and not (isinstance(e.func, ast.Name) and isinstance(env.get(e.func.id), Closure)):
             return self.models[last](*args, **kwargs)
@@ -519,6 +589,45 @@ class AbsExec:
                 return d.pop(*args)
             if m == "setdefault":
                 return d.setdefault(*args)
+        if isinstance(f, tuple) and f and f[0] == "repo":
+            _, obj, m = f
+            a = m.node.args
+            names = [x.arg for x in [*a.posonlyargs, *a.args]]
+            static = any("staticmethod" in d for d in m.decorators())
+            sub: dict = {}
+            vals = list(args) if static else [obj, *args]
+            for i, n in enumerate(names):
+                if i < len(vals):
+                    sub[n] = vals[i]
+                elif n in kwargs:
+                    sub[n] = kwargs[n]
+                else:
+                    di = i - (len(names) - len(a.defaults))
+                    if di < 0:
+                        raise Undecided(f"{self.where}:{getattr(node, 'lineno', 0)}: unbound parameter {n} of {m.qualname}")
+                    sub[n] = self.eval(a.defaults[di], {})
+            is_gen = any(isinstance(n, (ast.Yield, ast.YieldFrom)) for n in ast.walk(m.node))
+            if is_gen:
+                self.yields.append([])
+                try:
+                    self.run(m.node.body, sub)
+                finally:
+                    out = self.yields.pop()
+                return out
+            return self.run(m.node.body, sub)
+        if isinstance(f, tuple) and f and f[0] == "ctor":
+            name = f[1]
+            c = self.classes[name]
+            init = self.repo.find_method(c, "__init__") if self.repo is not None else None
+            obj = Obj(name, {})
+            if init is not None:
+                self.apply(("repo", obj, init), args, kwargs, node)
+            else:
+                fields = [n for k in reversed(self.repo.mro(c)) for n in k.annotations]
+                for n, v in zip(fields, args):
+                    obj.f[n] = v
+                obj.f.update(kwargs)
+            return obj
         if isinstance(f, tuple) and f and f[0] == "bound":
             _, obj, m = f
             return self.methods[(obj.cls, m)](obj, *args, **kwargs)
